@@ -272,6 +272,49 @@ Proof.
   exists (fun n => n). split; [intro; reflexivity|]. exists [], [("a.kpt", "1234")]. vm_compute. discriminate.
 Qed.
 
+(* 2f. several writer handles on one archive, some never closed.  A history of opens / appends / closes / un-closed
+       handles being reclaimed (del, scope exit, gc, interpreter exit) / process kills that the model accepts (= at most one
+       handle is USED at a time; older un-closed handles may linger and be reclaimed at ANY later moment) leaves on disk
+       exactly the base followed by every completed append, in order: reclaiming or killing writes nothing, whenever it
+       happens.  Stated for any member type; then for a fresh kapture reader at every point k of the history. *)
+Theorem C12_abandoned_writers_harmless : forall (A : Type) (evs : list (event A)) base s,
+  run false (hinit base) evs = Some s ->
+  odflt [] (hs_disk s) = odflt [] base ++ appended evs /\
+  (base <> None -> hs_disk s <> None) /\ (appended evs <> [] -> hs_disk s <> None).
+Proof. intros A evs base s H. exact (run_false_disk A evs (hinit base) s H). Qed.
+Print Assumptions C12_abandoned_writers_harmless.
+
+Theorem C12_history_reader : forall norm base (evs : list hev) k s,
+  run false (hinit base) (map (hev_event norm) (firstn k evs)) = Some s ->
+  (base <> None \/ happended (firstn k evs) <> []) ->
+  hreader norm s =
+    Opened (mview norm (odflt [] base ++ map (fun e => mk_member norm (fst e) (snd e)) (happended (firstn k evs)))).
+Proof. intros norm base evs k s R N. apply history_reader; assumption. Qed.
+Print Assumptions C12_history_reader.
+
+(* an accepted history is accepted at every earlier point (so the statement above applies to all k) *)
+Theorem C12_history_prefixes : forall (A : Type) fin (evs : list (event A)) s s' k,
+  run fin s evs = Some s' -> exists s1, run fin s (firstn k evs) = Some s1.
+Proof. intros A fin evs s s' k H. exact (run_prefix A fin evs s s' k H). Qed.
+Print Assumptions C12_history_prefixes.
+
+(* exactly when a closing finaliser would bite: the reclaimed handle no longer stands at the end of the archive *)
+Theorem C12_closing_finalizer_harmless_iff_current : forall (A : Type) (s : hstate A) id p,
+  lookup id (hs_handles s) = Some p -> p <= dlen (hs_disk s) ->
+  exists s', step true s (EvDrop id) = Some s' /\
+             (odflt [] (hs_disk s') = odflt [] (hs_disk s) <-> p = dlen (hs_disk s)).
+Proof. intros A s id p L LE. exact (drop_closing_iff_current A s id p L LE). Qed.
+Print Assumptions C12_closing_finalizer_harmless_iff_current.
+
+(* a finaliser that closes the handle (writes the end-of-archive blocks at the handle's own, stale position) loses the
+   appends a later writer completed meanwhile: writer 1 appends and is left un-closed, writer 2 appends and closes,
+   writer 1 is reclaimed.  Without a finaliser the same history keeps everything. *)
+Lemma C12_finalizer_closing_refuted :
+  let evs := [EvOpen 1; EvAppend 1 "a"; EvOpen 2; EvAppend 2 "b"; EvAppend 2 "a'"; EvClose 2; EvDrop 1] in
+  (exists s, run true (hinit (Some ["z"])) evs = Some s /\ hs_disk s = Some ["z"; "a"]) /\
+  (exists s, run false (hinit (Some ["z"])) evs = Some s /\ hs_disk s = Some ("z" :: appended evs)).
+Proof. split; eexists; split; vm_compute; reflexivity. Qed.
+
 (* ------------------------------------------------------------------ 3. boundary, stated not hidden *)
 (* a file with a trailing partial element reads differently through the two routes (np.fromfile drops it,
    np.frombuffer raises); such a file is not the dump of an array, so it is outside the property *)
@@ -359,3 +402,15 @@ Proof.
            ++ apply perm_skip. apply perm_swap.
   - vm_compute. repeat split.
 Qed.
+
+(* non-vacuity at the level of kapture readers: the same history through the API, observed after every event *)
+Example C12_history_example :
+  let evs := [HOpen 0; HAppend 0 "./a.jpg.kpt" "A1"; HOpen 1; HAppend 1 "b.kpt" "B"; HAppend 1 "a.jpg.kpt" "A2"; HClose 1; HDrop 0] in
+  let base := Some [("z.kpt", hdr0, PBytes "Z")] in
+  map (fun k => option_map (hreader ex_norm) (run false (hinit base) (map (hev_event ex_norm) (firstn k evs)))) [0; 2; 5; 7] =
+  [Some (Opened [("z.kpt", "Z")]); Some (Opened [("z.kpt", "Z"); ("a.jpg.kpt", "A1")]);
+   Some (Opened [("z.kpt", "Z"); ("a.jpg.kpt", "A2"); ("b.kpt", "B")]);
+   Some (Opened [("z.kpt", "Z"); ("a.jpg.kpt", "A2"); ("b.kpt", "B")])] /\
+  (* a stale handle that is used again is outside the model *)
+  run false (hinit base) (map (hev_event ex_norm) (firstn 4 evs ++ [HAppend 0 "c.kpt" "C"])) = None.
+Proof. split; vm_compute; reflexivity. Qed.
